@@ -1118,4 +1118,12 @@ def origins(fn, through_calls='wrappers', extra_wrappers=()):
                 if not new <= org[d]:
                     org[d] |= new
                     changed = True
+    # a use that was visited before the definition of its source (block order is not flow order, e.g. after splicing a helper in)
+    # left a ('local', n) placeholder behind; once n has origins of its own the later rounds have added them, and the placeholder
+    # says nothing more
+    has_real = {l for l, qs in org.items() if any(q[0][0] != 'local' for q in qs)}
+    for l, qs in org.items():
+        stale = {q for q in qs if q[0][0] == 'local' and q[0][1] in has_real and q[0][1] != l}
+        if stale and len(stale) < len(qs):
+            qs -= stale
     return org
